@@ -505,10 +505,15 @@ def integrate(b, case, q, p, eps=None, L=None):
 
 def hamiltonian(b, case, q, p):
     torch = impl.load()
+    if not all(math.isfinite(v) for v in list(q) + list(p)):
+        return math.nan
     set_params(b, q, case["sizes"])
     ham = b.op._hamiltonian
-    with torch.no_grad():
-        return float(ham.potential_energy() + ham.kinetic_energy(torch.tensor(p), b.op.inverse_mass_matrix))
+    try:
+        with torch.no_grad():
+            return float(ham.potential_energy() + ham.kinetic_energy(torch.tensor(p), b.op.inverse_mass_matrix))
+    except ValueError:      # NaN potential / value outside the support: no energy
+        return math.nan
 
 
 def maxabs(v):
@@ -646,6 +651,25 @@ def check_energy_order(b, case, q0, rng):
                                        f"(observed orders {r1:.2f}, {r2:.2f}, {r3:.2f}; expected 2)")
         k += 1
     return "undefined", None
+
+
+def check_hamiltonian_call(b, case, q0, p_a):
+    """Hamiltonian.__call__(momentum=p) must be U(q) + K(p) for the momentum it is given, also when it is
+    called twice in a row with different momenta at the same position (as find_reasonable_step_size does)."""
+    torch = impl.load()
+    set_params(b, q0, case["sizes"])
+    ham, minv = b.op._hamiltonian, b.op.inverse_mass_matrix
+    p_b = [2.0 * v + 1.0 for v in p_a]
+    with torch.no_grad():
+        for i, p in enumerate((p_a, p_b)):
+            t = torch.tensor(p)
+            got = float(ham(momentum=t, inverse_mass_matrix=minv))
+            want = float(ham.potential_energy() + ham.kinetic_energy(t, minv))
+            if not abs(got - want) <= 1e-9 * max(1.0, abs(want)):
+                return (f"Hamiltonian(momentum=p) returned {got!r} on call {i + 1} at an unchanged position, but "
+                        f"potential + kinetic energy of that momentum is {want!r}"
+                        + (" (the value cached for the previous momentum is returned)" if i else ""))
+    return None
 
 
 def check_shadow(case, out):
@@ -801,6 +825,10 @@ def work(args):
                 tests.append(("energy-order", lambda b: check_energy_order(b, c, c["q0"], g)))
             try:
                 b = build(c)
+                text = check_hamiltonian_call(b, c, c["q0"], o["p0"])
+                stat("hamiltonian-call:" + ("bad" if text else "ok"))
+                if text:
+                    findings.append(("C16:hamiltonian-call:stale-momentum", text, dict(case=c, p_a=o["p0"])))
                 for what, fn in tests:
                     st, text = fn(b)
                     stat(f"{what}:{st}")
